@@ -861,6 +861,13 @@ func TestVoteSetModel(t *testing.T) {
 			}
 		}
 
+		if maj, ok := set.TwoThirdsMajority(); ok {
+			for i := range m.first {
+				if e := exact(maj); m.signed[i][e] && m.first[i] != "" && m.first[i] != e {
+					classes["majority-id-also-signed-as-conflicting-vote"] = true
+				}
+			}
+		}
 		if reportedAt >= 0 {
 			classes["majority-reported"] = true
 			if reportedAt < steps-1 {
